@@ -164,6 +164,12 @@ EXTRA = ('Definition inpl (sign : Z) (self : pstr (K:=GQ)) (isl : bool) (l : lis
 _DEPS = {'built': False}
 
 
+def mark_broken(ctx, name, detail=''):
+    """At most three reports per stream (an exhaustive stream may disagree on thousands of rows)."""
+    if sum(1 for n, _ in ctx.broken if n == name) < 3:
+        ctx.mark_broken(name, detail)
+
+
 def eval_text(name, text, timeout=900):
     """Like coq.coq_eval, but the model is built once per run (one `make` under the shared lock) instead of once per file."""
     import os, subprocess
@@ -224,7 +230,7 @@ def flush_rows(ctx, tag, groups, budget=1200):
         assert len(vals) == len(pcs), (len(vals), len(pcs))
         for (g, s0, rows), val in zip(pcs, vals):
             for idx in coq.parse_nat_list(val):
-                ctx.mark_broken(f'correspondence:{g.name}', f'model and implementation differ on {g.desc[s0 + idx]}')
+                mark_broken(ctx, f'correspondence:{g.name}', f'model and implementation differ on {g.desc[s0 + idx]}')
 
 
 # ---------------------------------------------------------------- generators
@@ -274,7 +280,7 @@ def stream_mul_exhaustive(ctx, ad, ns, triples_n):
                           sample=dict(a=str(ad.ps(a)), b=str(ad.ps(b)), product=str(r)))
                 kr = unit_exp(out[0])
                 if kr is None or any(k >= n for k, _ in out[1]):
-                    ctx.mark_broken('correspondence:ps_mul_exhaustive', f'{a} * {b} gave {out}: not a unit coefficient on the operands\' qubits')
+                    mark_broken(ctx, 'correspondence:ps_mul_exhaustive', f'{a} * {b} gave {out}: not a unit coefficient on the operands\' qubits')
                     kr = 0
                 g2.add(c_list([n, ka, kb, kr] + list(ma) + list(mb) + mask_of(out[1], n)), f'{a} * {b} -> {out}')
                 check_product_matrix(ctx, ad, 'ps_mul', [a, b], r, qs)
@@ -290,7 +296,7 @@ def stream_mul_exhaustive(ctx, ad, ns, triples_n):
                     ctx.count('ps_mul_triples', (n, ma, mb, mc), sum(1 for m in (ma, mb, mc) if any(m)) >= 2)
                     kr = unit_exp(out[0])
                     if kr is None or any(k >= n for k, _ in out[1]):
-                        ctx.mark_broken('correspondence:ps_mul_triples', f'{a} * {b} * {c} gave {out}')
+                        mark_broken(ctx, 'correspondence:ps_mul_triples', f'{a} * {b} * {c} gave {out}')
                         kr = 0
                     g3.add(c_list([n, 1, 2, 3, kr] + list(ma) + list(mb) + list(mc) + mask_of(out[1], n)), f'{a} * {b} * {c} -> {out}')
                     check_product_matrix(ctx, ad, 'ps_mul3', [a, b, c], r, qs)
@@ -584,7 +590,7 @@ def stream_dense(ctx, ad, count, exhaustive_n):
         if exhaustive:
             kr = unit_exp(out[0])
             if kr is None or len(out[1]) != len(a[1]):
-                ctx.mark_broken('correspondence:ds_mul_exhaustive', f'{a} * {b} gave {out}')
+                mark_broken(ctx, 'correspondence:ds_mul_exhaustive', f'{a} * {b} gave {out}')
                 kr = 0
             GX.add(c_list([len(a[1]), unit_exp(a[0]), unit_exp(b[0]), kr] + list(a[1]) + list(b[1]) + list(out[1])[:len(a[1])]),
                    f'{a} * {b} -> {out}')
@@ -1104,7 +1110,7 @@ def stream_expectation(ctx, ad, count):
         ctx.count('expectation_state_vector', (s, pos, it), k > 0, sample=dict(string=str(p), axes=pos, expectation=str(complex(got))))
         if abs(got - ref) > tol:
             ctx.violation('expectation:state_vector', f'{p}.expectation_from_state_vector with qubit_map {pos}: {got} vs <psi|P|psi> = {ref}',
-                          dict(kind='expect', s=ser_ps(s), pos=pos, n=n, seed=it, mode='sv'))
+                          dict(kind='expect', s=ser_ps(s), pos=pos, n=n, psi=[[float(z.real), float(z.imag)] for z in psi], mode='sv'))
         # density matrix: a random mixture of two pure states
         phi = rand_state(rng, n)
         w = rng.random()
@@ -1117,7 +1123,7 @@ def stream_expectation(ctx, ad, count):
         ctx.count('expectation_density_matrix', (s, pos, it), k > 0)
         if abs(got - ref) > tol:
             ctx.violation('expectation:density_matrix', f'{p}.expectation_from_density_matrix with qubit_map {pos}: {got} vs tr(rho P) = {ref}',
-                          dict(kind='expect', s=ser_ps(s), pos=pos, n=n, seed=it, mode='dm'))
+                          dict(kind='expect', s=ser_ps(s), pos=pos, n=n, psi=[[float(z.real), float(z.imag)] for z in psi], mode='dm'))
         # PauliSum, and the simulator
         terms = [((F(rng.randint(-6, 6), 2), F(0)), rand_items(rng, n, 0.5)) for _ in range(rng.randint(1, 3))]
         S_ = ad.psum(terms)
@@ -1128,7 +1134,7 @@ def stream_expectation(ctx, ad, count):
         ctx.count('expectation_sum', (terms, pos, it), True)
         if abs(g1 - np.vdot(psi, M @ psi)) > 1e-6 or abs(g2 - np.trace(rho @ M)) > 1e-6:
             ctx.violation('expectation:sum', f'PauliSum {S_} expectation with qubit_map {pos} differs from <psi|H|psi> / tr(rho H)',
-                          dict(kind='expect_sum', terms=[ser_ps(t) for t in terms], pos=pos, n=n, seed=it))
+                          dict(kind='expect_sum', terms=[ser_ps(t) for t in terms], pos=pos, n=n, psi=[[float(z.real), float(z.imag)] for z in psi]))
         if it % 4 == 0 and n <= 4:
             circ = cirq.Circuit([clifford_ops(cirq, rng, n, ad) for _ in range(4)] + [cirq.T(ad.q(rng.randrange(n)))] +
                                 [cirq.I(ad.q(q)) for q in range(n)])
@@ -1140,11 +1146,29 @@ def stream_expectation(ctx, ad, count):
             ctx.count('expectation_simulator', (s, terms, pos, it), True)
             if any(abs(a - b) > 1e-6 for a, b in zip(out, refs)) or any(abs(a - b) > 1e-6 for a, b in zip(out_d, refs)):
                 ctx.violation('expectation:simulator', f'simulate_expectation_values({p}, {S_}) with qubit order {by_axis}: {out} / {out_d} vs {refs}',
-                              dict(kind='expect_sim', s=ser_ps(s), terms=[ser_ps(t) for t in terms], pos=pos, n=n, seed=it))
+                              dict(kind='expect_sim', s=ser_ps(s), terms=[ser_ps(t) for t in terms], pos=pos, n=n, circuit=cirq.to_json(circ)))
 
 
 # ---------------------------------------------------------------- driver
 def run(ctx):
+    """Run all streams; a broken obligation / correspondence / harness failure for which no failing input was found is
+    reported as such even when known findings were hit (runner.finish() only does so when there are none)."""
+    import traceback
+    try:
+        _run(ctx)
+    except SystemExit:
+        raise
+    except Exception:
+        tb = traceback.format_exc()
+        print(tb)
+        ctx.mark_broken('harness-exception', tb[-2000:])
+    if ctx.broken and not any(v['found_input'] for v in ctx.violations):
+        names = sorted({b[0] for b in ctx.broken})
+        ctx.violation('broken:' + ';'.join(names), 'obligation or correspondence no longer checks; no failing input found',
+                      dict(kind='broken', broken=[{'name': n, 'detail': d} for n, d in ctx.broken]), found_input=False)
+
+
+def _run(ctx):
     cirq = env.import_cirq()
     ad = A(cirq)
     ctx.rule = ('Pauli strings as (Gaussian-rational coefficient, ordered qubit->letter items); exhaustive ordered pairs of letter '
@@ -1162,7 +1186,7 @@ def run(ctx):
                         'conjugation, rotations and expectation values are compared with references on generated inputs, not proved']
     err = tables.regenerate(['PauliTables'])
     if err['PauliTables']:
-        ctx.mark_broken('table:PauliTables', err['PauliTables'])
+        mark_broken(ctx, 'table:PauliTables', err['PauliTables'])
     ctx.set_obligations(coq.compile_props('C14'))
     quick = ctx.tier == 'quick'
     stream_mul_exhaustive(ctx, ad, [1, 2, 3], [1, 2])
@@ -1249,9 +1273,7 @@ def replay(ctx, data):
     elif k == 'expect':
         s = deser_ps(data['s'])
         n, pos = data['n'], data['pos']
-        rng = np.random.RandomState(data.get('seed', 0))
-        psi = rng.randn(2 ** n) + 1j * rng.randn(2 ** n)
-        psi /= np.linalg.norm(psi)
+        psi = np.array([complex(x, y) for x, y in data['psi']])
         by_axis = sorted(range(n), key=lambda q: pos[q])
         P = ad.mat(s, by_axis)
         qmap = {ad.q(q): pos[q] for q in range(n)}
@@ -1261,6 +1283,35 @@ def replay(ctx, data):
         print('expectation', got, got2, 'reference', ref)
         if abs(got - ref) > 1e-6 or abs(got2 - ref) > 1e-6:
             pr.hit.append(('expect', 'differs'))
+    elif k == 'expect_sum':
+        terms = [deser_ps(d) for d in data['terms']]
+        n, pos = data['n'], data['pos']
+        psi = np.array([complex(x, y) for x, y in data['psi']])
+        by_axis = sorted(range(n), key=lambda q: pos[q])
+        M = sum_matrix(ad, terms, by_axis)
+        full = {ad.q(q): pos[q] for q in range(n)}
+        S_ = ad.psum(terms)
+        g1 = S_.expectation_from_state_vector(psi, full)
+        g2 = S_.expectation_from_density_matrix(np.outer(psi, psi.conj()), full)
+        ref = np.vdot(psi, M @ psi)
+        print('expectation', g1, g2, 'reference', ref)
+        if abs(g1 - ref) > 1e-6 or abs(g2 - ref) > 1e-6:
+            pr.hit.append(('expect_sum', 'differs'))
+    elif k == 'expect_sim':
+        s = deser_ps(data['s'])
+        terms = [deser_ps(d) for d in data['terms']]
+        n, pos = data['n'], data['pos']
+        by_axis = sorted(range(n), key=lambda q: pos[q])
+        order = [ad.q(q) for q in by_axis]
+        circ = cirq.read_json(json_text=data['circuit'])
+        p, S_ = ad.ps(s), ad.psum(terms)
+        st = circ.final_state_vector(qubit_order=order, dtype=np.complex128)
+        refs = [np.vdot(st, ad.mat(s, by_axis) @ st), np.vdot(st, sum_matrix(ad, terms, by_axis) @ st)]
+        out = cirq.Simulator(dtype=np.complex128).simulate_expectation_values(circ, [p, S_], qubit_order=order)
+        out_d = cirq.DensityMatrixSimulator(dtype=np.complex128).simulate_expectation_values(circ, [p, S_], qubit_order=order)
+        print(out, out_d, refs)
+        if any(abs(a - b) > 1e-6 for a, b in zip(out, refs)) or any(abs(a - b) > 1e-6 for a, b in zip(out_d, refs)):
+            pr.hit.append(('expect_sim', 'differs'))
     elif k == 'commutes':
         a, b, qs = deser_ps(data['a']), deser_ps(data['b']), data['qubits']
         rc = bool(cirq.commutes(ad.ps(a), ad.ps(b)))
